@@ -67,6 +67,7 @@ mutual
     | .list [.atom "dot", c] => (toSimple c).map .dot
     | .atom "dotsyn" => some .dotSyn
     | .atom "dotioerr" => some .dotIoErr
+    | .list [.atom "execfail", i] => i.nat?.map fun i => .execFail (i != 0)
     | _ => none
 
   partial def toTarget : Sx → Option Target
@@ -188,6 +189,21 @@ def runSc (line : String) : String :=
         let s0 : St := { errexit := e }
         let o := runShellSc i 1000 s0 true t ls
         showSc o ++ "\t" ++ specVerdict i s0 ls
+  | _ => "bad-case\t-"
+
+/-- `rd <seed> (<interactive> <errexit> <EXIT action probe 99: 0|1>)`: the main input cannot be read -/
+def runRd (line : String) : String :=
+  match tokenize line with
+  | "rd" :: _seed :: toks =>
+    match parseAll toks [] with
+    | some [.list [_i, e, t]] =>
+      match e.nat?, t.nat? with
+      | some e, some t =>
+        let s0 : St := { errexit := e != 0 }
+        let o := readErrorShell 1000 s0 (if t != 0 then some [.plain (probeSimple 99)] else none)
+        showSc o ++ "\t=" ++ showSc o
+      | _, _ => "bad-case\t-"
+    | _ => "bad-case\t-"
   | _ => "bad-case\t-"
 
 end YashModel.Errexit
